@@ -218,7 +218,7 @@ func (w *c11World) opAdd(peer bool) {
 		old := cands[c.Rng.IntN(len(cands))]
 		hops := append([]m.SwitchHop(nil), old.Path.Hops...)
 		for k := range hops {
-			hops[k].Delay = uint16(c.Rng.IntN(90))
+			hops[k].Delay = c11Delay(c, 90)
 		}
 		e = m.RoutingTableEntry{DstIP: old.DstIP, NextHop: old.NextHop, Path: m.SwitchPath{Hops: hops}, Stub: old.Stub, Source: m.RouteSourceGossip, Expires: now.Add(10*time.Minute + 10*time.Second)}
 		desc = fmt.Sprintf("RefreshGossip(dst=%s,via=%s,hops=%d)", old.DstIP, old.NextHop, len(hops))
@@ -229,7 +229,7 @@ func (w *c11World) opAdd(peer bool) {
 		hops := []m.SwitchHop{{Router: w.self, Delay: uint16(5 + c.Rng.IntN(40)), ForwardLabel: m.SwitchLabel(1 + c.Rng.IntN(100))}}
 		hops = append(hops, m.SwitchHop{Router: nh, Delay: uint16(5 + c.Rng.IntN(40)), ForwardLabel: m.SwitchLabel(1 + c.Rng.IntN(300)), ReturnLabel: m.SwitchLabel(1 + c.Rng.IntN(300))})
 		for k := 1; k < nRel; k++ {
-			hops = append(hops, m.SwitchHop{Router: w.relays[c.Rng.IntN(len(w.relays))], Delay: uint16(c.Rng.IntN(60)), ForwardLabel: m.SwitchLabel(1 + c.Rng.IntN(20000)), ReturnLabel: m.SwitchLabel(1 + c.Rng.IntN(300))})
+			hops = append(hops, m.SwitchHop{Router: w.relays[c.Rng.IntN(len(w.relays))], Delay: c11Delay(c, 60), ForwardLabel: m.SwitchLabel(1 + c.Rng.IntN(20000)), ReturnLabel: m.SwitchLabel(1 + c.Rng.IntN(300))})
 		}
 		hops = append(hops, m.SwitchHop{Router: d, ReturnLabel: m.SwitchLabel(1 + c.Rng.IntN(300))})
 		e = m.RoutingTableEntry{DstIP: d, NextHop: nh, Path: m.SwitchPath{Hops: hops}, Stub: c.Rng.IntN(4) == 0, Source: m.RouteSourceGossip}
@@ -409,6 +409,19 @@ func (w *c11World) opClean() {
 
 func coqRp(rp m.RoutablePrefix) string {
 	return fmt.Sprintf("(mkRp %s %d %d (%d)%%Z %d%%nat)", ipN(rp.BasePrefix.Addr()), rp.BasePrefix.Bits(), rp.RoutingBits, rp.EntryTTL.Milliseconds(), rp.EntriesPerPrefix)
+}
+
+// c11Delay draws a hop delay: mostly small, now and then one of the large legal values of the
+// 16-bit field (slow satellite or overloaded hops), so that path totals reach and pass 65535.
+func c11Delay(c *Ctx, small int) uint16 {
+	switch c.Rng.IntN(12) {
+	case 0:
+		return uint16(20000 + c.Rng.IntN(45536))
+	case 1:
+		return []uint16{65535, 65534, 65530, 32768, 40000, 25541}[c.Rng.IntN(6)]
+	default:
+		return uint16(c.Rng.IntN(small))
+	}
 }
 
 func runC11(c *Ctx) error {
